@@ -360,6 +360,8 @@ func runC12(c *Ctx) {
 	checkSequentialLoops(c, "R18")
 	// R19: a chunk the server took is a chunk transferred — the STATUS that acknowledges a WRITE decodes to nil
 	checkStatusCaseNextToDataCase(c, "R19", true)
+	// R20 (shared as C13.R23, C01.R26): the offset reported with the source's error lies behind the chunk just sent
+	checkSourceErrorBehindChunk(c, "R20")
 	c.withRule("R13", func() {
 		c01TransferSitesOnly = true
 		defer func() { c01TransferSitesOnly = false }()
@@ -542,6 +544,7 @@ func runC13(c *Ctx) {
 	// R21 (shared with C12.R19): an error is returned only when the server failed a chunk — SSH_FX_OK is no failure
 	checkStatusCaseNextToDataCase(c, "R21", true)
 	checkKnownErrorNotAnsweredWithNil(c, "R22")
+	checkSourceErrorBehindChunk(c, "R23")
 
 	// R7: ReadFrom / ReadFromWithConcurrency leave the File offset at the end of the intact prefix
 	checkOffsetStores(c, "R7", map[string]bool{"(*File).ReadFrom": true, "(*File).readFromWithConcurrency": true})
@@ -2323,4 +2326,69 @@ func checkKnownErrorNotAnsweredWithNil(c *Ctx, rule string) {
 		})
 	}
 	c.okT(rule, "returns directly behind a non-nil error test examined", "?", fmt.Sprintf("%d", n))
+}
+
+
+// checkSourceErrorBehindChunk (C12.R20, C13.R23, C01.R26): in a function that cuts a source into WRITE requests at a
+// cursor, an (offset, error) pair built behind the dispatch of a chunk in the same iteration does not carry the
+// chunk's own offset: the chunk went out and will be acknowledged, so "the end of what was read" — which becomes the
+// File's offset and the caller's count — lies behind it.  With the chunk's offset the next Write overwrites the bytes
+// the count has just reported.
+func checkSourceErrorBehindChunk(c *Ctx, rule string) {
+	p := c.P
+	n := 0
+	for _, fn := range p.LibFuncs() {
+		if outermost(fn).Package() != p.Sftp || !isClientSide(fn) {
+			continue
+		}
+		for _, w := range literalsOf(fn, "sshFxpWritePacket") {
+			offV := litField(w, "Offset")
+			if offV == nil || !inLoop(w) {
+				continue
+			}
+			cur := stripConv(offV)
+			loops := loopsOf(fn)
+			l := innermostLoop(loops, w.Block())
+			if l == nil {
+				continue
+			}
+			eachInstr(fn, func(in ssa.Instruction) {
+				a, ok := in.(*ssa.Alloc)
+				if !ok {
+					return
+				}
+				st := derefStruct(a.Type())
+				if st == nil || st.NumFields() != 2 {
+					return
+				}
+				var offName string
+				hasErr := false
+				for i := 0; i < 2; i++ {
+					if isErrorType(st.Field(i).Type()) {
+						hasErr = true
+					} else if isIntType(st.Field(i).Type()) {
+						offName = st.Field(i).Name()
+					}
+				}
+				if !hasErr || offName == "" {
+					return
+				}
+				// built behind the dispatch, within the same iteration
+				if !reachAvoiding(fn, w, func(x ssa.Instruction) bool { return x == in }, func(x ssa.Instruction) bool {
+					return x.Block() == l.head && idxIn(x) == 0
+				}) {
+					return
+				}
+				v := litField(a, offName)
+				if v == nil {
+					return
+				}
+				n++
+				c.check(stripConv(v) != cur, rule, fmt.Sprintf("(offset, error) pair behind the chunk in %s", fnName(fn)), p.Pos(a.Pos()),
+					"the offset reported is not the offset of the chunk just sent",
+					"the (offset, error) pair built behind the dispatch of a chunk carries that chunk's own offset: the bytes of the chunk are sent and counted, but the File's offset stays in front of them")
+			})
+		}
+	}
+	c.floor(rule, 1)
 }
